@@ -544,6 +544,55 @@ def _try_inline(st: ast.stmt, cands, caller, ccls, caller_locals) -> tuple[str, 
     return name, out
 
 
+# ------------------------------------------------------------------------------------------------ N12
+class _LenTests(ast.NodeTransformer):
+    """In test position (if / while / conditional expression / operand of not, and, or there): `len(x) == 0` is `not x`, `len(x) > 0`, `len(x) != 0`,
+    `len(x) >= 1` are `x` (the truth value of the sized container; x pure)."""
+
+    def _t(self, e: ast.expr) -> ast.expr:
+        if isinstance(e, ast.UnaryOp) and isinstance(e.op, ast.Not):
+            e.operand = self._t(e.operand)
+            return e
+        if isinstance(e, ast.BoolOp):
+            e.values = [self._t(v) for v in e.values]
+            return e
+        if isinstance(e, ast.Compare) and len(e.ops) == 1:
+            a, b, op = e.left, e.comparators[0], e.ops[0]
+            if isinstance(b, ast.Call) and ast.unparse(b.func) == "len":
+                a, b = b, a
+                op = {ast.Lt: ast.Gt, ast.Gt: ast.Lt, ast.LtE: ast.GtE, ast.GtE: ast.LtE}.get(type(op), type(op))()
+            if isinstance(a, ast.Call) and ast.unparse(a.func) == "len" and len(a.args) == 1 and not a.keywords and _pure(a.args[0]) \
+                    and isinstance(b, ast.Constant) and type(b.value) is int:
+                x = a.args[0]
+                empty = (isinstance(op, ast.Eq) and b.value == 0) or (isinstance(op, ast.Lt) and b.value == 1) or (isinstance(op, ast.LtE) and b.value == 0)
+                nonempty = (isinstance(op, ast.NotEq) and b.value == 0) or (isinstance(op, ast.Gt) and b.value == 0) or (isinstance(op, ast.GtE) and b.value == 1)
+                if empty:
+                    return ast.copy_location(ast.UnaryOp(op=ast.Not(), operand=x), e)
+                if nonempty:
+                    return x
+        return e
+
+    def visit_If(self, node: ast.If) -> ast.AST:
+        self.generic_visit(node)
+        node.test = self._t(node.test)
+        return node
+
+    def visit_While(self, node: ast.While) -> ast.AST:
+        self.generic_visit(node)
+        node.test = self._t(node.test)
+        return node
+
+    def visit_IfExp(self, node: ast.IfExp) -> ast.AST:
+        self.generic_visit(node)
+        node.test = self._t(node.test)
+        return node
+
+    def visit_comprehension(self, node: ast.comprehension) -> ast.AST:
+        self.generic_visit(node)
+        node.ifs = [self._t(c) for c in node.ifs]
+        return node
+
+
 # ------------------------------------------------------------------------------------------------ N5
 class _IfExpStmts(ast.NodeTransformer):
     """`x = a if c else b` -> `if c: x = a else: x = b`; `return a if c else b` -> `if c: return a else: return b` (same evaluation order)."""
@@ -653,6 +702,7 @@ def normalise(trees: dict[str, ast.Module]) -> None:
     _split_handlers(trees)
     for t in trees.values():
         _inline_constants(t, known)
+        _LenTests().visit(t)
         _Exprs().visit(t)
         _WhileTrue().visit(t)
         for fn in [n for n in ast.walk(t) if isinstance(n, (ast.FunctionDef, ast.AsyncFunctionDef))]:
